@@ -47,6 +47,18 @@ aws_array_list_comparator_fn *g_qs_cmp;
 
 size_t g_mm;        /* memmove: offset (inside the moved range) of the witness byte */
 
+/* replay variables (DESIGN 3.5).  The driver extracts the LAST value of every field of the list object from the
+ * counterexample trace, i.e. the post-state.  The pre-state that the native replay (replay/array_list_replay.c) rebuilds
+ * is recorded in ghost scalars which the harness leaves arbitrary and AL_REQ_OK ties to the list by a ghost-guarded
+ * requires clause: the ghosts are free, so no input is restricted; r_al_on is set by the harnesses only (false after
+ * AL_GHOST_RESET), and where a contract replaces a call inside the function under proof the list is still in its
+ * pre-state at that call (every such call is the function's first action on the list), so the clause holds there.
+ * r2_*: the second list of copy (to) and swap_contents (list_b). */
+bool r_al_on, r_dynamic, r2_dynamic;
+size_t r_length, r_current_size, r2_length, r2_current_size;
+#define AL_REQ_REPLAY(l, LEN, CUR, DYN)                                                                                \
+    __CPROVER_requires(r_al_on ==> (LEN) == (l)->length && (CUR) == (l)->current_size && (DYN) == ((l)->alloc != NULL))
+
 /* ---- arithmetic lemmas.  SAT cannot derive distributivity / monotonicity of x*ISZ at 64 bits in reasonable time
  * when ISZ is not a power of two.  Each AL_LEM_* below is a formula over size_t scalars that is VALID FOR ALL VALUES
  * (a modular identity, or an implication whose hypothesis is part of the list invariant); each is proved in a unit
@@ -89,7 +101,7 @@ __CPROVER_ensures(g_on ==> ((const uint8_t *)dest)[AL_CLAMP(g_mm, n)] == __CPROV
 ;
 
 /* DFCC starts every harness with NONDET globals: reset all ghost switches, then switch on what the harness needs */
-#define AL_GHOST_RESET() do { GHOST_RESET_COMMON(); g_zero_on = false; g_rz = 0; g_rsize = 0; g_qs_calls = 0; g_lemma = AL_FN_NONE; } while (0)
+#define AL_GHOST_RESET() do { GHOST_RESET_COMMON(); g_zero_on = false; g_rz = 0; g_rsize = 0; g_qs_calls = 0; g_lemma = AL_FN_NONE; r_al_on = false; } while (0)
 
 /* ---- the thread-local error slot of error.c, seen through the ghost g_last_error (ASSUMED model) ---- */
 int aws_last_error(void)
@@ -115,11 +127,13 @@ __CPROVER_ensures(RET == g_last_error)
 #    define AL_FITS_PRE(len, cur) (AL_FITS_P(len, cur) && AL_FITS_Q(len, cur))
 #endif
 #define AL_STORAGE_OK(l) ((l)->current_size == 0 ? (l)->data == NULL : __CPROVER_is_fresh((l)->data, (l)->current_size))
-#define AL_REQ_OK(l)                                                                                                   \
+#define AL_REQ_OK_(l)                                                                                                  \
     __CPROVER_requires(__CPROVER_is_fresh((l), sizeof(*(l))))                                                          \
     __CPROVER_requires((l)->item_size == ISZ)                                                                          \
     __CPROVER_requires(AL_FITS_PRE((l)->length, (l)->current_size))                                                    \
     __CPROVER_requires(AL_STORAGE_OK(l))
+#define AL_REQ_OK(l) AL_REQ_OK_(l) AL_REQ_REPLAY(l, r_length, r_current_size, r_dynamic)
+#define AL_REQ_OK_2ND(l) AL_REQ_OK_(l) AL_REQ_REPLAY(l, r2_length, r2_current_size, r2_dynamic)
 /* post-state representation invariant (storage validity is given by the frame / by is_fresh where it is replaced) */
 #define AL_INV_COMMON(l) ((l)->item_size == ISZ && (((l)->current_size == 0) == ((l)->data == NULL)))
 #define AL_INV_P(l) (AL_INV_COMMON(l) && AL_FITS_P((l)->length, (l)->current_size))
@@ -423,7 +437,7 @@ __CPROVER_ensures(g_on && g_j < ISZ ==> AL_BYTES(list)[a * ISZ + g_j] == g_vb &&
 int aws_array_list_copy(const struct aws_array_list *AWS_RESTRICT from, struct aws_array_list *AWS_RESTRICT to)
 AL_REQ_OK(from)
 __CPROVER_requires(from->data != NULL)
-AL_REQ_OK(to)
+AL_REQ_OK_2ND(to)
 __CPROVER_requires(g_on ==> (g_k < to->current_size ==> g_old == AL_BYTES(to)[g_k]))
 __CPROVER_assigns(AL_COPY_FITS(from, to) || AL_COPY_GROWS(from, to) : to->length)
 __CPROVER_assigns(AL_COPY_FITS(from, to) && from->length > 0 : __CPROVER_object_upto(AL_BYTES(to), from->length * ISZ))
@@ -465,7 +479,7 @@ AWS_STATIC_IMPL void aws_array_list_swap_contents(
     struct aws_array_list *AWS_RESTRICT list_a,
     struct aws_array_list *AWS_RESTRICT list_b)
 AL_REQ_OK(list_a)
-AL_REQ_OK(list_b)
+AL_REQ_OK_2ND(list_b)
 __CPROVER_requires(list_a->alloc != NULL && list_a->alloc == list_b->alloc)
 __CPROVER_assigns(*list_a, *list_b)
 __CPROVER_ensures(list_a->length == OLD(list_b->length) && list_b->length == OLD(list_a->length))
